@@ -70,7 +70,7 @@ def gen_case(rng, params, index):
                "        SimWidget { id: w2; onFired: w1.reset() }\n    }\n}\n" % line)
         return {"kind": "rejection", "shape": kind, "qml": qml, "type_name": "Doc"}
     return qtcheck.gen_doc_case(rng, "handlers", params["histories"], rng.randint(max(8, params["events"] // 3), params["events"]),
-                                doc_kwargs={"handler_p": 0.85, "max_handlers": 3, "n_bindings": rng.randint(2, 9)})
+                                doc_kwargs={"handler_p": 0.85, "max_handlers": 3, "n_bindings": rng.randint(2, 9) if rng.chance(0.8) else 0})   # 0: a document with handlers only
 
 
 def run_case(case, env):
